@@ -70,7 +70,7 @@ def cases(tier, rng):
         yield {'k': 'after-error', 'j': j}
     for n in (224, 256, 384, 512):
         rb = (1600 - 2 * n) // 8
-        ls = set(range(0, (2 * rb + 3) if tier == 'thorough' else 20)) | {rb - 2, rb - 1, rb, rb + 1, 2 * rb - 1, 2 * rb, 2 * rb + 1, 3 * rb - 1, 3 * rb, 4 * rb, 4 * rb + 1}
+        ls = set(range(0, (2 * rb + 3) if tier == 'thorough' else 20)) | {rb - 2, rb - 1, rb, rb + 1, 2 * rb - 1, 2 * rb, 2 * rb + 1, 3 * rb - 1, 3 * rb, 4 * rb, 4 * rb + 1, 4095, 4096, 4099} | ({65539} if n == 256 else set())
         for l in sorted(ls):
             yield {'k': 'sha3', 'n': n, 'len': l, 'pat': ['rand', 'zero', 'ones'][l % 3]}
         for l in (0, 1, rb - 1, rb, 2 * rb + 1):
